@@ -70,7 +70,7 @@ func init() {
 
 // value-preserving wrappers: every way a number can be "computed" before it meets an operator
 var provWraps = []string{"toInt(%s)", "round(%s)", "roundBank(%s)", "floor(%s)", "ceil(%s)", "abs(%s)", "max(%s)", "min(%s, 1e40)", "finite(%s)", "toFloat(%s)",
-	"toFloat(toString(%s))", "(%s)", "+%s", "-(-%s)", "(%s + finite(null))", "(finite(null) + %s)", "(%s * toInt(1))", "(c ? %s : 0)", "($p = %s)", "idf(%s)", "hostint(%s)", "(%s ?? 1)", "(0 || %s)", "[%s, 0] == 0 ? 0 : %s"}
+	"toFloat(toString(%s))", "(%s)", "+%s", "-(-%s)", "(%s + finite(null))", "(finite(null) + %s)", "(%s * toInt(1))", "(c ? %s : 0)", "($p = %s)", "($q = %s, $q)", "($r = %s, $s = $r, $s)", "idf(%s)", "hostint(%s)", "(%s ?? 1)", "(0 || %s)", "[%s, 0] == 0 ? 0 : %s"}
 
 func judgeProv(c ProvCase) *eng.Fail {
 	if strings.Contains(c.Wrap, "== 0 ?") {
@@ -569,9 +569,6 @@ func runC04(w *eng.W) {
 			}
 			if strings.Contains(wr, "hostint(") && len(v) > 22 {
 				continue
-			}
-			if (strings.Contains(wr, "floor(") || strings.Contains(wr, "ceil(")) && len(v) > 18 {
-				continue // floor/ceil work in a 16-digit context: exactness beyond that is C18's domain, not claimed
 			}
 			for _, y := range provYs {
 				for _, op := range []string{"+", "-", "*", "/", "%"} {
